@@ -56,11 +56,7 @@ var nilCfgAnalysis = rules.NilGuardCfg{
 		"FnCall.Caller":           "always built as &FnCallIdentifier{...} (checked on the constructors by C18.1m)",
 		"SourceOverdraft.Address": "both overdraft alternatives are only predicted after a complete address expression followed by ALLOWING (grammar shape checked by C18.1m)",
 	},
-	Exceptions: map[string]rules.NilException{
-		"nil:internal/analysis.CheckResult.checkExpression:invoke:GetRange": {
-			Reason: "the left operand is dereferenced only on the arm where its inferred type is neither any nor number/monetary, and the inference helper answers any for a nil expression",
-			Side:   rules.SideInferAnyOnNil(relAnalysis, "(*CheckResult).typeOf")},
-	},
+	Exceptions: map[string]rules.NilException{},
 	MapValueNonNil: map[string]map[string]bool{"declaredVars": {"Name": true}, "varResolution": {"Name": true}},
 }
 
